@@ -316,6 +316,7 @@ pub fn check(problem: &PProblem, solution: &Value, opts: &OracleOptions) -> Vec<
         let mut prev_departure = t0;
         let mut job_activity_count = 0usize;
         let mut used_breaks: HashSet<usize> = HashSet::new();
+        let mut used_required: HashSet<usize> = HashSet::new();
         let mut used_reloads: HashSet<usize> = HashSet::new();
         let mut groups_here: HashSet<String> = HashSet::new();
         let mut compat_here: HashSet<String> = HashSet::new();
@@ -411,7 +412,27 @@ pub fn check(problem: &PProblem, solution: &Value, opts: &OracleOptions) -> Vec<
                                 break_time += end - start;
                                 cur_time = end;
                             }
-                            None => f.push(Finding::new("C02:break-not-defined", here("break activity does not match a distinct break of this shift"))),
+                            None => {
+                                // a required break of the shift (exact times): distinct, starts inside [earliest, latest], lasts as defined
+                                let start = a.time.map_or(stop.arrival.max(cur_time), |t| t.0);
+                                let end = a.time.map_or(stop.departure, |t| t.1);
+                                let req = shift.required_breaks.iter().enumerate().filter(|(bi, _)| !used_required.contains(bi)).min_by(|(_, x), (_, y)| (x.0 - start).abs().total_cmp(&(y.0 - start).abs()));
+                                match req {
+                                    Some((bi, (earliest, latest, duration))) => {
+                                        used_required.insert(bi);
+                                        replay_undefined = true;
+                                        if start < earliest - tol || start > latest + tol {
+                                            f.push(Finding::new("C01:required-break-window", here(&format!("required break starts at {start}, allowed [{earliest}, {latest}]"))));
+                                        }
+                                        if (end - start - duration).abs() > tol {
+                                            f.push(Finding::new("C01:required-break-duration", here(&format!("required break lasts {}, defined {duration}", end - start))));
+                                        }
+                                        break_time += end - start;
+                                        cur_time = end;
+                                    }
+                                    None => f.push(Finding::new("C02:break-not-defined", here("break activity does not match a distinct break of this shift"))),
+                                }
+                            }
                         }
                     }
                     "reload" => {
@@ -568,6 +589,20 @@ pub fn check(problem: &PProblem, solution: &Value, opts: &OracleOptions) -> Vec<
             prev_loc = stop_loc;
             prev_departure = if si == 0 { cur_time } else { stop.departure.max(cur_time) };
             last_activity_end = cur_time;
+        }
+        // a required break whose whole window lies inside the tour has to be there (or be listed under violations)
+        {
+            let tour_end = stops.last().map_or(t0, |s| s.arrival.max(s.departure));
+            let listed = solution.get("violations").and_then(|v| v.as_array()).map_or(0, |v| {
+                v.iter().filter(|x| x["type"] == "break" && x["vehicle_id"].as_str() == Some(vehicle_id) && x["shift_index"].as_u64().unwrap_or(0) as usize == shift_index).count()
+            });
+            let missing = shift.required_breaks.iter().enumerate().filter(|(bi, (e, l, d))| !used_required.contains(bi) && t0 <= *e && l + d < tour_end).count();
+            if missing > listed {
+                f.push(Finding::new("C01:required-break-missing", here(&format!("{missing} required break(s) fall inside the tour [{t0}, {tour_end}] but are not taken ({listed} listed as violations)"))));
+            }
+            if !shift.required_breaks.is_empty() {
+                replay_undefined = true;
+            }
         }
         // open shift: nothing after the last job; closed shift must end with arrival
         if let Some(_) = shift.end {
